@@ -566,6 +566,20 @@ impl Default for Settings {
     }
 }
 
+#[cfg(trusttunnel_verif)]
+impl TlsHostsSettings {
+    /// Verification door: no TLS hosts at all (the builder refuses an empty main host list)
+    pub(crate) fn verif_empty() -> Self {
+        Self {
+            main_hosts: Vec::new(),
+            ping_hosts: Vec::new(),
+            speedtest_hosts: Vec::new(),
+            reverse_proxy_hosts: Vec::new(),
+            built: true,
+        }
+    }
+}
+
 impl TlsHostsSettings {
     pub fn builder() -> TlsSettingsBuilder {
         TlsSettingsBuilder::new()
